@@ -156,32 +156,49 @@ def state(run, p, pc):
 
 def ordersrc(run, p, cd):
     run.rule('C05-ORDER', 'the column-order check compares the order of the actual frame\'s own columns with the order of the reference '
-                          'frame\'s own columns (each side iterates its frame), restricted to the selected columns')
-    gm = GuardMap(cd.node)
-    var = None
-    for x in p.own_nodes(cd):
-        if isinstance(x, ast.Call) and isinstance(x.func, ast.Attribute) and x.func.attr == 'different_column_orders':
-            for g in gm.chain(x) or ():
-                if g.kind == 'if' and g.pol and isinstance(g.test, ast.Name) and g.test.id != 'same':
-                    var = g.test.id
-    if var is None:
-        raise AnalysisError('check_dataframe: guard of different_column_orders not found')
-    cmp_ = [s.value for s in ast.walk(cd.node) if isinstance(s, ast.Assign) and any(norm(t) == var for t in s.targets) and isinstance(s.value, ast.Compare)]
-    if len(cmp_) != 1:
-        raise AnalysisError('check_dataframe: %s is not defined by one comparison' % var)
-    c = cmp_[0]
-    srcs = []
-    for operand in (c.left, c.comparators[0]):
-        src = None
-        if isinstance(operand, ast.Name):
-            for s in ast.walk(cd.node):
-                if isinstance(s, ast.Assign) and any(norm(t) == operand.id for t in s.targets) and isinstance(s.value, (ast.ListComp, ast.GeneratorExp)):
-                    src = norm(s.value.generators[0].iter)
-        elif isinstance(operand, (ast.ListComp, ast.GeneratorExp)):
-            src = norm(operand.generators[0].iter)
-        srcs.append(src)
-    frames = {'list(df)': 'df', 'df.columns': 'df', 'df': 'df', 'list(ref_df)': 'ref_df', 'ref_df.columns': 'ref_df', 'ref_df': 'ref_df'}
-    got = sorted(frames.get((s or '').replace(' ', ''), '?') for s in srcs)
-    run.ob('C05-ORDER', '%s::%s::%s' % (cd.rel, cd.short, var), got == ['df', 'ref_df'] and isinstance(c.ops[0], ast.NotEq),
-           '%s = `%s`; the two sequences iterate %s' % (var, norm(c), srcs), fn=cd, node=c)
-    run.floor('C05-ORDER', 1, 1)
+                          'frame\'s own columns: the two column sequences that are compared each iterate a different one of the two '
+                          'frames (in check_dataframe or the helper it hands the structure comparison to)')
+
+    def frame_of(e):
+        """the frame a column sequence iterates: df, list(df), df.columns, df.columns.tolist() ..."""
+        while True:
+            if isinstance(e, ast.Call) and isinstance(e.func, ast.Name) and e.func.id in ('list', 'tuple', 'iter') and e.args:
+                e = e.args[0]
+            elif isinstance(e, ast.Call) and isinstance(e.func, ast.Attribute) and e.func.attr in ('tolist', 'to_list', 'keys'):
+                e = e.func.value
+            elif isinstance(e, ast.Attribute) and e.attr == 'columns':
+                e = e.value
+            else:
+                break
+        return e.id if isinstance(e, ast.Name) else None
+    fns = [cd] + [g for _c, ts, _k in p.calls(cd) for g, _ctx in ts if g.cls is cd.cls and g is not cd]
+    found = []
+    for f in fns:
+        comps = {}
+        for s_ in ast.walk(f.node):
+            if isinstance(s_, ast.Assign) and len(s_.targets) == 1 and isinstance(s_.targets[0], ast.Name) and \
+                    isinstance(s_.value, (ast.ListComp, ast.GeneratorExp)):
+                comps[s_.targets[0].id] = s_.value
+        for c in ast.walk(f.node):
+            if not (isinstance(c, ast.Compare) and len(c.ops) == 1 and isinstance(c.ops[0], (ast.NotEq, ast.Eq))):
+                continue
+            sides = []
+            for operand in (c.left, c.comparators[0]):
+                v = comps.get(operand.id) if isinstance(operand, ast.Name) else operand
+                if isinstance(v, (ast.ListComp, ast.GeneratorExp)) and len(v.generators) == 1:
+                    sides.append(frame_of(v.generators[0].iter))
+            if len(sides) == 2 and all(sides) and all(x in f.params for x in sides):
+                # the frames of this function: parameters it subscripts by column or asks for .columns / .dtypes
+                frames = {x.value.id for x in ast.walk(f.node) if isinstance(x, ast.Subscript) and isinstance(x.value, ast.Name)
+                          and isinstance(x.ctx, ast.Load)}
+                frames |= {x.value.id for x in ast.walk(f.node) if isinstance(x, ast.Attribute) and x.attr in ('columns', 'dtypes')
+                           and isinstance(x.value, ast.Name)}
+                found.append((f, c, sides, frames & set(f.params)))
+    if not found:
+        raise AnalysisError('check_dataframe: the comparison of the two column orders was not found')
+    for f, c, sides, frames in found:
+        ok = sides[0] != sides[1] and all(x in frames for x in sides)
+        run.ob('C05-ORDER', '%s::%s::order-comparison' % (f.rel, f.short), ok,
+               '`%s` compares the column order of %s with that of %s%s' % (norm(c), sides[0], sides[1], '' if ok else
+                                                                         ' - not the two frames\' own orders (frames here: %s)' % sorted(frames)), fn=f, node=c)
+    run.floor('C05-ORDER', len(found), 1)
